@@ -18,11 +18,34 @@ class InjectedFault(Exception):
 class RecordRows:
     """what pytables returns for read/read_coordinates(field=None): structured records, not a
     float column. Carried as an opaque marker so that VCs can tell it from a scalar column."""
+    __array_ufunc__ = None
+    ndim = 1
+
     def __init__(self, table, idx):
         self.table, self.idx = table, idx
 
     def __len__(self):
         return len(self.idx)
+
+    @property
+    def shape(self):
+        return (len(self.idx),)
+
+    @property
+    def size(self):
+        return len(self.idx)
+
+    def copy(self):
+        return self
+
+    def __getitem__(self, k):
+        return RecordRows(self.table, self.idx[k])
+
+    def __mul__(self, o):
+        if isinstance(o, units.Unit):
+            return units.Quantity(self, o)
+        return NotImplemented
+    __rmul__ = __mul__
 
 
 from .symnp import ExpCell  # noqa: E402
